@@ -364,7 +364,7 @@ func ipv6Text(a v6) {
 			switch {
 			case back == nil:
 				r.Violation("ip.NewIPv6FromString:rejects-valid", fmt.Sprintf("NewIPv6FromString(%q) = nil", form), cs)
-			case *back != *x:
+			case !mon.ExportedEqual(*back, *x):
 				r.Violation("ip.NewIPv6FromString:value", fmt.Sprintf("NewIPv6FromString(%q) = %s", form, back.String()), cs)
 			}
 		}
